@@ -121,11 +121,11 @@ def exact_identities(ctx):
 
 
 def code_identities(ctx):
-    names = ['sq2d', 'fcc', 'honey2d', 'rect2d-2site', 'twoW', 'omegaR'] if ctx.quick else \
-            ['sq2d', 'tri2d', 'honey2d', 'oblique2d', 'rect2d-2site', 'fcc', 'bcc', 'sc', 'hcp', 'rumpled', 'twoW', 'omegaR', 'triclinic']
+    names = ['sq2d', 'fcc', 'honey2d', 'rect2d-2site', 'twoW', 'omegaR', 'omegaI'] if ctx.quick else \
+            ['sq2d', 'tri2d', 'honey2d', 'oblique2d', 'rect2d-2site', 'fcc', 'bcc', 'sc', 'hcp', 'rumpled', 'twoW', 'omegaR', 'omegaI', 'triclinic']
     for name in names:
         for nth in ((1,) if ctx.quick else (1, 2)):
-            if nth == 2 and name in ('hcp', 'rumpled', 'twoW', 'omegaR', 'triclinic'): continue
+            if nth == 2 and name in ('hcp', 'rumpled', 'twoW', 'omegaR', 'omegaI', 'triclinic'): continue
             calc, calc6 = vc.calculator(name, nth, 4), vc.calculator(name, nth, 6)
             if nth == 1: _tie_generator(ctx, name, calc)
             for t in range(3 if ctx.quick else 6):
